@@ -40,6 +40,9 @@ type Env struct {
 	Anys  []interface{}
 	Fs    []float64
 	M     map[string]interface{}
+	MI    map[string]int // typed maps: a missing key reads as the element zero (0, ""), not nil
+	MS    map[string]string
+	MN    map[string]int // nil
 	Sub   Sub
 	P     *Sub
 	Z     interface{} // nil
@@ -99,6 +102,8 @@ func NewEnv(seed int, pick func(n int) int) *Env {
 	e.Anys = anys[pick(len(anys))]
 	e.Fs = [][]float64{{}, {1.5}, {0.5, 2, -1}}[pick(3)]
 	e.M = []map[string]interface{}{{}, {"a": 1, "b": "x"}, {"k": []interface{}{1, 2}, "n": nil, "a": 2.5}}[pick(3)]
+	e.MI = []map[string]int{{}, {"a": 1, "b": -2}, {"a": 0, "abc": 7, "": 3}}[pick(3)]
+	e.MS = []map[string]string{{}, {"a": "x", "b": ""}, {"abc": "lo", "xyz": "a"}}[pick(3)]
 	e.Sub = Sub{X: scal[pick(len(scal))], Name: "sub", Tags: []string{"t1", "t2"}}
 	e.P = &Sub{X: 42, Name: "ptr", Tags: nil}
 	e.Id = func(x interface{}) interface{} { log.add("Id", x); return x }
@@ -168,6 +173,6 @@ func (e *Env) AsMap() map[string]interface{} {
 	return m
 }
 
-func (e *Env) ResetLog()        { e.log.Calls = nil }
-func (e *Env) Log() []string    { return append([]string(nil), e.log.Calls...) }
-func (e *Env) String() string   { return fmt.Sprintf("%+v", *e) }
+func (e *Env) ResetLog()      { e.log.Calls = nil }
+func (e *Env) Log() []string  { return append([]string(nil), e.log.Calls...) }
+func (e *Env) String() string { return fmt.Sprintf("%+v", *e) }
